@@ -12,7 +12,7 @@ RULE = ("every window kind (and unknown / mixed-case kinds), line widths over si
         "window formulas evaluated in Float against dnplab.math.window (rel. 1e-11), (c) on the real code: window identical "
         "for every trace, first point 1 and non-increasing for the decaying kinds, exponential closed form, unknown kinds "
         "rejected; non-trivial = >=2 dims or length > 8")
-LWS = ["1/1000", "1/100", "1/10", "1", "10", "100", "1000"]
+LWS = ["1/1000", "1/100", "1/10", "1", "10", "100", "1000", "1/1000000", "1/100000000"]   # incl. very weak broadening (pi*lw*T ~ 1e-6 … 1e-8)
 
 
 X0S = [Fraction(0), Fraction(0), Fraction(1, 20), Fraction(3), Fraction(-1, 4)]
